@@ -32,9 +32,14 @@ class Case:
         return self.kind in ("vec", "array", "iter")
 
     def src_values(self):
-        """payloads in source order (for iter: the S entries before the first N/P)"""
+        """payloads in source order (for iter: the S entries before the first N/P); memoised (generators may still replace
+        `script` / `vals`, so the memo is keyed on them)"""
         if self.kind == "range":
             return None
+        key = (self.kind, id(self.script), len(self.script), id(self.vals), len(self.vals))
+        memo = getattr(self, "_sv", None)
+        if memo is not None and memo[0] == key:
+            return memo[1]
         if self.is_iter():
             out = []
             for e in self.script:
@@ -42,8 +47,21 @@ class Case:
                     out.append(int(e[1:]))
                 else:
                     break
-            return out
-        return list(self.vals)
+        else:
+            out = list(self.vals)
+        self._sv = (key, out, None)
+        return out
+
+    def pos_of_val(self, val):
+        """first source position holding payload `val` (None if absent)"""
+        vals = self.src_values()
+        memo = self._sv
+        if memo[2] is None:
+            d = {}
+            for i, v in enumerate(vals):
+                d.setdefault(v, i)
+            self._sv = memo = (memo[0], memo[1], d)
+        return memo[2].get(val)
 
     def src_len(self):
         if self.kind == "range":
@@ -76,6 +94,8 @@ class Case:
     # ---- text ---------------------------------------------------------------------------------
     def text(self):
         L = ["case %s" % self.id]
+        if self.tags:
+            L.append("#tags " + " ".join(sorted(self.tags)))     # a comment for the harness and the driver; read back by parse_cases
         if self.kind == "range":
             src = "src range start=%d stop=%d" % (self.start, self.stop)
         elif self.is_iter():
@@ -109,6 +129,9 @@ def parse_cases(text):
     cur = None
     for raw in text.split("\n"):
         line = raw.strip()
+        if line.startswith("#tags ") and cur is not None:
+            cur.tags = set(line.split()[1:])
+            continue
         if not line or line.startswith("#"):
             continue
         toks = line.split()
